@@ -169,7 +169,7 @@ def main(tier):
     # containers, attributes, star-unpacking, dependent global parameters, tuple-valued properties
     ccore = gen_discrete.container_core()
     if tier == "quick":
-        ccore = ccore[seed() % 5 :: 5]
+        ccore = ccore[seed() % 6 :: 6]
     if os.environ.get("C01_ONLY") == "containers":
         core, ecore, rand = [], [], []
     items = core + ecore + ccore + rand
